@@ -11,9 +11,12 @@
 (*              meaning of d itself.                                       *)
 (***************************************************************************)
 EXTENDS Eval, Json, IOUtils
-Dims23 == <<2, 3>>
-Dims21 == <<2, 1>>
-Dims32 == <<3, 2>>
+Dims23 == <<<<2>>, <<3>>>>
+Dims21 == <<<<2>>, <<1>>>>
+Dims32 == <<<<3>>, <<2>>>>
+\* multi-wire object images: x is sent to Dim(2, 2) (its own mirror image, so cups exist), resp. Dim(2, 3) (cup-free diagrams only)
+DimsM22 == <<<<2, 2>>, <<3>>>>
+DimsM23 == <<<<2, 3>>, <<2>>>>
 SameT(x, y) == x.dom = y.dom /\ x.cod = y.cod /\ x.a = y.a
 \* what a variant must evaluate to: a rewritten form of d denotes d; a formal sum the entrywise sum; a bubble
 \* the entrywise image under its function; a spider its delta tensor
